@@ -88,7 +88,8 @@ class C26(core.Check):
         tag = rng.randint(mintag, ntags - 1)
         call = dict(ffi=rng.below(nffi), tag=tag, points=rng.randint(0, 4),
                     end='raise' if rng.chance(p_raise) else rng.weighted([('ok', 8), ('none', 1), ('false', 1),
-                                                                          ('tuple', 1)]), nest=None)
+                                                                          ('tuple', 1)]), nest=None,
+                    exc=rng.weighted([(0, 6), (1, 2), (2, 1), (3, 1), (4, 1), (5, 1), (6, 1)]))
         if tag + 1 <= ntags - 1 and rng.chance(p_nest):
             call['nest'] = self._gen_call(rng, ntags, nffi, p_raise, 0.0, tag + 1)
         return call
@@ -148,6 +149,12 @@ class C26(core.Check):
         class InitErr(Exception):
             pass
 
+        # the same failure as other kinds of exception: outside Exception, and kinds that the
+        # implementations themselves catch or use internally
+        ERRS = [InitErr] + [type('InitErr_' + b.__name__, (b,), {}) for b in
+                            (BaseException, KeyError, StopIteration, TypeError, RuntimeError, KeyboardInterrupt)]
+        ERRS_T = tuple(ERRS)
+
         serial = [0]
 
         def do_call(c, call, depth):
@@ -168,7 +175,9 @@ class C26(core.Check):
                     do_call(c, call['nest'], depth + 1)
                     sched.point('f')
                 if call['end'] == 'raise':
-                    e = InitErr(cid)
+                    e = ERRS[call.get('exc', 0) % len(ERRS)](cid)
+                    if call.get('exc', 0):
+                        out.probe('initializer_raises_unusual_exception_kind')
                     state['exc'] = e
                     events.append(('f_raise', cid, key, c.id))
                     raise e
@@ -188,7 +197,7 @@ class C26(core.Check):
             sched.point('call')
             try:
                 r = ffi.init_once(f, tag)
-            except InitErr as e:
+            except ERRS_T as e:
                 events.append(('exc', cid, key, c.id, e, state))
                 if depth > 0:
                     pass     # the nested failure is contained: outer f continues
